@@ -143,3 +143,69 @@ Proof.
     destruct a; try congruence; destruct b; try reflexivity; contradiction.
   - intros Ha g e He. cbn [eval]. rewrite He. cbn [bind]. destruct a; try reflexivity; contradiction.
 Qed.
+
+(* ------------------------------------------------------------------ list comprehensions *)
+(* the loop of `eval` on EComp over an array, named *)
+Section CompGo.
+Variables (g : env) (e : expr) (v : str) (cond : option expr).
+Fixpoint comp_go (l : list value) : ev :=
+  match l with
+  | [] => Val (VArr [])
+  | x :: r =>
+      let g' := (v, x) :: g in
+      bind (match cond with Some c => eval g' c | None => Val (VBool true) end) (fun cv =>
+        if is_truthy cv then
+          bind (eval g' e) (fun y =>
+            match y with
+            | VUndef => Unspec
+            | _ => bind (comp_go r) (fun rest =>
+                     match rest with VArr rl => Val (VArr (y :: rl)) | _ => Unspec end)
+            end)
+        else comp_go r)
+  end.
+End CompGo.
+
+Lemma eval_comp_arr : forall g e v target cond l,
+  eval g target = Val (VArr l) ->
+  eval g (EComp e None v target cond) = comp_go g e v cond l.
+Proof. intros g e v target cond l H. cbn [eval]. rewrite H. cbn [bind]. reflexivity. Qed.
+
+(* a comprehension over an array is `map f (filter p ..)`: the condition is evaluated for every
+   element with the loop variable bound to it (shadowing), the element expression only for the
+   elements the condition keeps (for the others it may be `throw(..)`), in order *)
+Theorem comprehension_filter_map : forall g e v target cond l (f : value -> value) (p : value -> bool),
+  eval g target = Val (VArr l) ->
+  (forall x, In x l ->
+     match cond with
+     | Some c => exists cv, eval ((v, x) :: g) c = Val cv /\ is_truthy cv = p x
+     | None => p x = true
+     end) ->
+  (forall x, In x l -> p x = true -> eval ((v, x) :: g) e = Val (f x) /\ f x <> VUndef) ->
+  eval g (EComp e None v target cond) = Val (VArr (map f (filter p l))).
+Proof.
+  intros g e v target cond l f p Ht Hc He. rewrite (eval_comp_arr g e v target cond l Ht).
+  clear Ht. induction l as [|x r IH]; [reflexivity|].
+  assert (IH' := IH (fun y Hy => Hc y (or_intror Hy)) (fun y Hy => He y (or_intror Hy))). clear IH.
+  specialize (Hc x (or_introl eq_refl)). specialize (He x (or_introl eq_refl)).
+  cbn [comp_go filter]. cbv zeta.
+  assert (Hcv : exists cv, (match cond with Some c => eval ((v, x) :: g) c | None => Val (VBool true) end) = Val cv
+                           /\ is_truthy cv = p x).
+  { destruct cond as [c|]; [exact Hc|]. exists (VBool true). split; [reflexivity|]. rewrite Hc. reflexivity. }
+  destruct Hcv as (cv & E1 & E2). rewrite E1. cbn [bind]. rewrite E2.
+  destruct (p x) eqn:Ep.
+  - destruct (He eq_refl) as [E3 Hne]. rewrite E3. cbn [bind map].
+    rewrite IH'. cbn [bind]. destruct (f x); try reflexivity. congruence.
+  - exact IH'.
+Qed.
+
+(* the first failing condition / element ends the evaluation with an error *)
+Theorem comprehension_error : forall g e v target cond x r,
+  eval g target = Val (VArr (x :: r)) ->
+  (match cond with Some c => eval ((v, x) :: g) c = Err
+                 | None => eval ((v, x) :: g) e = Err end) ->
+  eval g (EComp e None v target cond) = Err.
+Proof.
+  intros g e v target cond x r Ht H. rewrite (eval_comp_arr g e v target cond (x :: r) Ht).
+  cbn [comp_go]. cbv zeta. destruct cond as [c|]; [rewrite H; reflexivity|].
+  cbn [bind]. change (is_truthy (VBool true)) with true. cbv iota. rewrite H. reflexivity.
+Qed.
